@@ -711,6 +711,29 @@ impl<T: Copy> Block for AgainSource<T> {
     }
 }
 
+/// Harness block: a source with nothing to deliver yet (a socket without
+/// data, say): answers Pending on every call.
+pub struct PendingSource<T: Copy> {
+    _dst: WriteStream<T>,
+}
+impl<T: Copy> PendingSource<T> {
+    pub fn new() -> (Self, ReadStream<T>) {
+        let (dst, r) = rustradio::stream::new_stream();
+        (Self { _dst: dst }, r)
+    }
+}
+impl<T: Copy> BlockName for PendingSource<T> {
+    fn block_name(&self) -> &str {
+        "PendingSource"
+    }
+}
+impl<T: Copy> BlockEOF for PendingSource<T> {}
+impl<T: Copy> Block for PendingSource<T> {
+    fn work(&mut self) -> Result<BlockRet> {
+        Ok(BlockRet::Pending)
+    }
+}
+
 /// Wrapper counting work() calls, and optionally failing on the k-th.
 pub struct Instrumented {
     pub inner: Box<dyn Block + Send>,
